@@ -116,6 +116,24 @@ pub fn cases(prop: &str, tier: Tier, seed: u64) -> Vec<CaseDesc> {
             }
             out.extend(with_scenario(base, "cfg"));
         }
+        "C09" => {
+            let mut base: Vec<String> = Vec::new();
+            base.extend(g("manyfuncs", 60, 3000));
+            base.extend(g("full", 40, 2000));
+            for (n, b) in [(64, 60), (127, 127), (128, 128), (500, 129), (2000, 60)] {
+                base.push(format!("leb:{}:{}:{}", n, b, seed % 7));
+            }
+            base.extend(corpus::real_specs());
+            base.extend(corpus::fixture_specs(false).into_iter().filter(|s| s.contains("many") || s.contains("fac") || s.contains("call")));
+            // invalid bodies at some indices: accept/reject must agree too
+            let mut rng = crate::rng::Rng::derive(seed, &[0xC09]);
+            let valid = g("manyfuncs", 30, 1500);
+            for b in &valid {
+                let k = *rng.pick(&[8u64, 15, 9, 7]);
+                base.push(format!("mut:{}:{}:{}", rng.below(1 << 30), k, b));
+            }
+            out.extend(with_scenario(base, "par"));
+        }
         "C10" => {
             // cfg 27 = defaults + generate_dwarf (implies the code-transform map)
             let mut bases: Vec<String> = crate::census::leb_specs(!q);
